@@ -34,19 +34,28 @@ class References:
     if isinstance(item, gfapy.Line):
       item = item.name
     self._check_item_included(item)
-    self.items.delete(item)
+    self.items.remove(item)
     return None
 
   def _rm_item_from_connected_group(self, item):
     if isinstance(item, str):
       item = self._gfa.line(item)
     self._check_item_included(item)
-    item._delete_reference(self, "sets")
-    self._delete_reference(item, "items")
+    items = self.items
+    if len(items) < 2:
+      raise gfapy.RuntimeError(
+        "Line: {}\n".format(self)+
+        "The only item of a group cannot be removed")
+    for i in range(len(items)):
+      if items[i] is item:
+        items.pop(i)
+        item._delete_reference(self, "sets")
+        break
     return None
 
   def _check_item_included(self, item):
-    if item not in self.items:
+    if not any(x is item or (isinstance(item, str) and x == item) \
+               for x in self.items):
       raise gfapy.NotFoundError(
         "Line: {}\n".format(self)+
         "Item: {}".format(repr(item))+
@@ -62,8 +71,11 @@ class References:
     return None
 
   def _add_item_to_connected_group(self, item, append = True):
-    self._add_reference(self.prepare_and_check_ref(item),
-                       "items", append = append)
+    item = self._prepare_and_check_ref(item)
+    if append:
+      self.items.append(item)
+    else:
+      self.items.insert(0, item)
     return None
 
   def _initialize_references(self):
